@@ -1,6 +1,6 @@
 (* C03 — Estimates are quadratic in signal amplitude.  Statements only.
 
-   PROVED (abstract ordered *-field, every length / order / lag; c any non-zero scalar):
+   PROVED (abstract ordered *-field, every length / order / lag / NFFT; c any non-zero scalar, |c|^2 := nrm2 c):
      acorr_scale        autocorrelation estimates (biased, unbiased, unnormalised) are multiplied by |c|^2,
                         the 'coeff' normalisation is invariant
      levinson_scale     LEVINSON(s*r) = (a, s*P, k) for every positive real s (same coefficients, same
@@ -8,19 +8,65 @@
      arburg_scale       arburg(c*x) = (a, |c|^2 rho, k) with ANY homogeneous order-selection rule: same AR
                         vector, same reflection coefficients, same selected order, same raise decision
      fpe_homogeneous    the FPE rule is homogeneous
+     periodogram_scale, periodogram2d_scale   speriodogram(c*x) = |c|^2 speriodogram(x): every bin, all flag values (detrend,
+                        scale_by_freq), every NFFT (cropping / padding), real and complex layout, 1-D and 2-D input; ANY c
+     periodogram_class_scale   the Periodogram object built from c*x, after the same sequence of operations (__call__, psd reads,
+                        window assignments), is the object built from x with its stored psd multiplied by |c|^2
+     correlogram_scale  CORRELOGRAMPSD(c*X, c*Y) = |c|^2 CORRELOGRAMPSD(X, Y) (auto / cross, both back ends, every lag / window /
+                        NFFT, same error branches); norm='coeff' is invariant
+     aryule_scale, pyule_ar_scale   aryule(c*x) = (a, |c|^2 P, k), same error branch (= LEVINSON o CORRELATION composed)
+     lpc_scale          lpc(c*x) = (a, |c|^2 e)
+     corrmtx_rowscaled  the 'covariance' / 'modified' data matrix of c*x is the one of x with each row multiplied by c or conj c
+     ls_normal_eqs_scale   lstsq SPECIFICATION: a solves the normal equations of lstsq(-Xc, X1) for x  <->  for c*x
+     ls_solve_scale     the executable solver returns the same vector on both
+     ls_scale           ar_ls with ANY two solvers that agree on the two systems: same a, e multiplied by |c|^2, the RELATIVE
+                        imaginary-part assertion takes the same branch
+     arcovar_scale, modcovar_scale, pcovar_rho_scale, pmodcovar_rho_scale   the four callers (rho = variance handed to arma2psd)
+     minvar_den_scale   real(fft(psi)) of minvar is divided by |c|^2
+     minvar_scale       minvar(c*x) = (|c|^2 PSD, A, k) when no bin of real(fft(psi)) is 0 (the code's division);
+     minvar_scale_grid  ... which holds by itself on a proper grid NFFT >= 2*order-1 (Capon sums are positive)
+     mtm_step_invariant one adaptive pass is invariant under (Sk, S, sig2) -> s*(Sk, S, sig2) (weights identical, new S multiplied by s)
+     mtm_stop_homogeneous   the stopping test is homogeneous
+     mtm_weights_invariant  pmtm(c*x) = (c * eigenspectra, SAME weights, same eigenvalues): 'unity', 'eigen' unconditionally,
+                        'adapt' for EVERY pass bound (fuel) when the unscaled run is regular;  mtm_passes_invariant: same pass count;
+                        mtm_pmtm_scale (with the dpss oracle and the argument checks), mtm_class_scale: MultiTapering psd times |c|^2
+     mtm_regular_natural    regularity holds by itself under the method's natural conditions (sig2 > 0, 0 < lambda_j <= 1, S0 <> 0)
+     fb_matrix_scale, svd_spec_scale   FB(c*x) rows = c / conj c times rows of FB(x); if (S, Vh) meets the SVD specification for
+                        FB(x) then (m*S, Vh) meets it for FB(c*x), m > 0 with m*m = |c|^2 (m stands for |c|)
+     eigen_decisions_invariant   eigen_nsig (threshold rule, argument checks, every error branch) is the same on m*S and S
+     music_invariant    MUSIC pseudo-spectrum unchanged, returned singular values times m
+     ev_den_scale, ev_scales, ev_scales_bin   EV denominators divided by m (floor max(S_I, eps S_0) scales by m); EV pseudo-spectrum
+                        times m (list level when no denominator bin is 0, bin by bin otherwise)
+     pclass_scale       pmusic / pev objects (real / complex layout, scale_by_freq)
+     class_scale_every_table   for EVERY pipeline table: stored PSD (k * functional result) = k * stored PSD (functional result)
+     class_arma_scale   AR / MA / ARMA classes: arma2psd(s*rho) at T = sampling and the stored PSD are multiplied by s
+   PROVED over the GENERATED table (tools/props/_pipelines.py, recompiled from the snapshot on every run by tools/props/C03.py
+   through ctx.check_generated): class_scale (instance for every class of the snapshot), class_estimator_routing (which
+   parameter / functional estimator each class calls), model_classes_rho_routed (every AR / MA / ARMA class hands the
+   estimated variance, not the default 1, to arma2psd and meets the hypotheses of class_arma_scale).
    PROVED (standard-library reals):
      log_criteria_homogeneous   the comparisons made by AIC, AICc, KIC, AKICc, MDL between two orders do not
                         depend on a common positive factor of rho (hence those rules are homogeneous as long
                         as the order-0 reference is the criterion's own value)
-   NOT PROVED here (search on the implementation only, until their models are merged): periodogram,
-   correlogram, Yule-Walker (composition of acorr_scale and levinson_scale), covariance / modified
-   covariance, ARMA / MA, minimum variance, MUSIC / EV, multitaper weights, class level. *)
-From Coq Require Import Reals Lra QArith Qcanon.
-Require Import Spectrum.Proofs.CriteriaR.
-Require Import Spectrum.Theory.Ops Spectrum.Theory.Sum Spectrum.Theory.Vec Spectrum.Theory.Order
-               Spectrum.Model.Levinson Spectrum.Model.Burg Spectrum.Model.Corr
-               Spectrum.Proofs.ScaleTheory
-               Spectrum.Instances.QcC Spectrum.Instances.QcCOrd.
+     eigen_criteria_shift, eigen_criteria_order   aic_eigen / mdl_eigen exactly as coded (criteria.py): s -> m*s adds the same constant
+                        (2 N ln m, N ln m) to every entry, so every comparison made by numpy.argmin -- the subspace dimension chosen by
+                        eigen() under criteria='aic'/'mdl' -- is unchanged (formula-level model over the reals, positive singular values)
+   NOT PROVED here (search on the implementation only): arma_estimate / ma (no merged model), DaniellPeriodogram,
+   arcovar_marple / modcovar_marple recursions; the link between the real-number model of aic_eigen / mdl_eigen
+   (eigen_criteria_shift, eigen_criteria_order) and the oracle argument [amin] of the Eigen model is by inspection;
+   that numpy's svd / lstsq return related factorisations for x and c*x (the theorems
+   are over their specifications); rounding. *)
+From Coq Require Import Reals Lra QArith Qcanon String.
+Require Import Spectrum.Proofs.CriteriaR Spectrum.Proofs.CriteriaEigenR_C03.
+Require Import Spectrum.Theory.Ops Spectrum.Theory.Sum Spectrum.Theory.Vec Spectrum.Theory.Order Spectrum.Theory.Dft
+               Spectrum.Model.Levinson Spectrum.Model.Burg Spectrum.Model.Corr Spectrum.Model.Periodogram
+               Spectrum.Model.Yule Spectrum.Model.Ls Spectrum.Model.Minvar Spectrum.Model.Mtm Spectrum.Model.Eigen
+               Spectrum.Model.Arma2psd Spectrum.Model.PipelineLib
+               Spectrum.Proofs.ScaleTheory Spectrum.Proofs.CovarTheory Spectrum.Proofs.EigenTheory Spectrum.Proofs.Arma2psdTheory
+               Spectrum.Proofs.ScalePeriodogram_C03 Spectrum.Proofs.ScaleYule_C03 Spectrum.Proofs.ScaleLs_C03
+               Spectrum.Proofs.ScaleMinvar_C03 Spectrum.Proofs.ScaleMtm_C03 Spectrum.Proofs.ScaleEigen_C03
+               Spectrum.Proofs.ScaleClass_C03 Spectrum.Proofs.MtmExample
+               Spectrum.Instances.QcC Spectrum.Instances.QcCOrd Spectrum.Instances.QcCTw.
 
 Section C03.
 Context {F : Type} {OF : Ops F} {L : Laws OF} {OL : OrdLaws OF}.
@@ -47,6 +93,190 @@ Proof. exact (arburg_scale_thm c stop x p). Qed.
 Theorem fpe_homogeneous N (gt : F -> F -> bool) :
   (forall s a b, pos s -> gt (s * a) (s * b) = gt a b) -> stop_homogeneous (fpe_stop N gt).
 Proof. exact (fpe_stop_homogeneous N gt). Qed.
+
+(* ---------------- periodogram / correlogram ---------------- *)
+Theorem periodogram_scale tw twopi c (x w : list F) NFFT isreal dt sbf fs :
+  speriodogram tw twopi (vscale c x) w NFFT isreal dt sbf fs
+  = vscale (nrm2 c) (speriodogram tw twopi x w NFFT isreal dt sbf fs).
+Proof. exact (periodogram_scale_thm tw twopi c x w NFFT isreal dt sbf fs). Qed.
+
+Theorem periodogram2d_scale tw twopi c (X : list (list F)) ncol (w : list F) NFFT isreal dt sbf fs :
+  speriodogram2d tw twopi (map (vscale c) X) ncol w NFFT isreal dt sbf fs
+  = map (vscale (nrm2 c)) (speriodogram2d tw twopi X ncol w NFFT isreal dt sbf fs).
+Proof. exact (periodogram2d_scale_thm tw twopi c X ncol w NFFT isreal dt sbf fs). Qed.
+
+Theorem periodogram_class_scale tw twopi c (data : list F) isreal wname w fs a dt sbf (ops : list pop) :
+  fold_left (p_step tw twopi) ops (p_init (vscale c data) isreal wname w fs a dt sbf)
+  = pstate_scale c (fold_left (p_step tw twopi) ops (p_init data isreal wname w fs a dt sbf)).
+Proof. exact (periodogram_class_scale_thm tw twopi c data isreal wname w fs a dt sbf ops). Qed.
+
+Theorem correlogram_scale tw c rp (x : list F) (y : option (list F)) lag (wfull : list F) NFFT nm be :
+  (nm = Coeff -> c <> 0 /\ rp <> 0) ->
+  correlogram tw (nrm2 c * rp) (vscale c x) (option_map (vscale c) y) lag wfull NFFT nm be
+  = option_map (vscale (cfac nm c)) (correlogram tw rp x y lag wfull NFFT nm be).
+Proof. exact (correlogram_scale_thm tw c rp x y lag wfull NFFT nm be). Qed.
+
+(* ---------------- Yule-Walker, lpc ---------------- *)
+Theorem aryule_scale c (x : list F) order nm allow : c <> 0 -> yule_nondeg x order nm allow ->
+  aryule (vscale c x) order nm allow = yw_scale (nrm2 c) (aryule x order nm allow).
+Proof. exact (aryule_scale_thm c x order nm allow). Qed.
+
+Theorem pyule_ar_scale c (x : list F) order nm : c <> 0 -> yule_nondeg x order nm true ->
+  pyule_ar (vscale c x) order nm = yw_scale (nrm2 c) (pyule_ar x order nm).
+Proof. exact (pyule_ar_scale_thm c x order nm). Qed.
+
+Theorem lpc_scale c (x : list F) N : c <> 0 -> lpc_nondeg x N ->
+  lpc (vscale c x) N = option_map (fun ae => (fst ae, nrm2 c * snd ae)) (lpc x N).
+Proof. exact (lpc_scale_thm c x N). Qed.
+
+(* ---------------- covariance / modified covariance ---------------- *)
+Theorem corrmtx_rowscaled c (x : list F) p meth : meth = MCovariance \/ meth = MModified ->
+  RowScaled (nrm2 c) (corrmtx x p meth) (corrmtx (vscale c x) p meth).
+Proof. exact (corrmtx_rowscaled_thm c x p meth). Qed.
+
+Theorem ls_normal_eqs_scale s (X X' : list (list F)) p a : RowScaled s X X' -> s <> 0 ->
+  normal_eqs p (mneg (cols1 X')) (col0 X') a <-> normal_eqs p (mneg (cols1 X)) (col0 X) a.
+Proof. exact (fun H => normal_eqs_scale s X X' H p a). Qed.
+
+Theorem ls_solve_scale s (X X' : list (list F)) p : RowScaled s X X' -> s <> 0 ->
+  ls_solve p (mneg (cols1 X')) (col0 X') = ls_solve p (mneg (cols1 X)) (col0 X).
+Proof. exact (fun H H0 => ScaleLs_C03.ls_solve_scale s X X' H H0 p). Qed.
+
+Theorem ls_scale (lstsq lstsq' : lstsq_t) meth c tol (x : list F) p : c <> 0 ->
+  meth = MCovariance \/ meth = MModified ->
+  (let X := corrmtx x p meth in let X' := corrmtx (vscale c x) p meth in
+   lstsq' p (mneg (cols1 X')) (col0 X') = lstsq p (mneg (cols1 X)) (col0 X)) ->
+  ar_ls lstsq' tol (corrmtx (vscale c x) p meth) p = ae_scale (nrm2 c) (ar_ls lstsq tol (corrmtx x p meth) p).
+Proof. exact (covar_with_scale_thm lstsq lstsq' meth c tol x p). Qed.
+
+Theorem arcovar_scale c tol (x : list F) p : c <> 0 ->
+  arcovar tol (vscale c x) p = ae_scale (nrm2 c) (arcovar tol x p).
+Proof. exact (arcovar_scale_thm c tol x p). Qed.
+
+Theorem modcovar_scale c tol (x : list F) p : c <> 0 ->
+  modcovar tol (vscale c x) p = ae_scale (nrm2 c) (modcovar tol x p).
+Proof. exact (modcovar_scale_thm c tol x p). Qed.
+
+Theorem pcovar_rho_scale c tol (x : list F) p : c <> 0 ->
+  pcovar_rho tol (vscale c x) p = ae_scale (nrm2 c) (pcovar_rho tol x p).
+Proof. exact (pcovar_rho_scale_thm c tol x p). Qed.
+
+Theorem pmodcovar_rho_scale c tol (x : list F) p : c <> 0 ->
+  pmodcovar_rho tol (vscale c x) p = ae_scale (nrm2 c) (pmodcovar_rho tol x p).
+Proof. exact (pmodcovar_rho_scale_thm c tol x p). Qed.
+
+(* ---------------- minimum variance ---------------- *)
+Theorem minvar_den_scale tw s m nfft (a : list F) P : pos s -> P <> 0 ->
+  minvar_den tw m nfft a (s * P) = vscale (inv s) (minvar_den tw m nfft a P).
+Proof. exact (minvar_den_scale_thm tw s m nfft a P). Qed.
+
+Theorem minvar_scale tw c (x : list F) m sampling nfft : c <> 0 ->
+  burg_nondeg no_stop x (m - 1) -> minvar_regular tw x m nfft ->
+  minvar tw (vscale c x) m sampling nfft = mv_scale (nrm2 c) (minvar tw x m sampling nfft).
+Proof. exact (minvar_scale_thm tw c x m sampling nfft). Qed.
+
+Theorem minvar_scale_grid nfft (tw : Z -> F) (T : Twiddle nfft tw) c (x : list F) m sampling : c <> 0 ->
+  (2 * m - 1 <= nfft)%nat -> burg_nondeg no_stop x (m - 1) ->
+  minvar tw (vscale c x) m sampling nfft = mv_scale (nrm2 c) (minvar tw x m sampling nfft).
+Proof. exact (minvar_scale_grid_thm nfft tw c x m sampling). Qed.
+
+(* ---------------- multitaper ---------------- *)
+Theorem mtm_step_invariant s (Sk : list (list F)) ev s2 nfft st : s <> 0 -> ad_regular ev s2 nfft st ->
+  ad_step (map (vscale s) Sk) ev (s * s2) nfft (ad_scale s st) = ad_scale s (ad_step Sk ev s2 nfft st).
+Proof. exact (ad_step_scale_thm s Sk ev s2 nfft st). Qed.
+
+Theorem mtm_stop_homogeneous s nfft tol (st : ad_st) : pos s -> conj tol = tol ->
+  (forall k, (k < nfft)%nat -> conj (nthF (ad_S st) k - nthF (ad_S1 st) k) = nthF (ad_S st) k - nthF (ad_S1 st) k) ->
+  ad_continue nfft (s * tol) (ad_scale s st) = ad_continue nfft tol st.
+Proof. exact (ad_continue_scale_thm s nfft tol st). Qed.
+
+Theorem mtm_weights_invariant fuel tw tapers c (ev x : list F) nfft m : c <> 0 -> method_regular tw tapers ev x nfft m ->
+  pmtm_core fuel tw tapers ev (vscale c x) nfft m = pm_scale c (pmtm_core fuel tw tapers ev x nfft m).
+Proof. exact (pmtm_core_scale_thm fuel tw tapers c ev x nfft m). Qed.
+
+Theorem mtm_passes_invariant fuel tw tapers c (ev x : list F) nfft : c <> 0 -> adapt_regular tw tapers ev x nfft ->
+  ad_i (adapt_run fuel (eigenspectra tw tapers (vscale c x) nfft) ev (vscale c x) nfft)
+  = ad_i (adapt_run fuel (eigenspectra tw tapers x nfft) ev x nfft).
+Proof. exact (adapt_passes_scale_thm fuel tw tapers c ev x nfft). Qed.
+
+Theorem mtm_pmtm_scale {NWT : Type} (dpss : nat -> NWT -> option nat -> list (list F) * list F)
+  fuel tw c (x : list F) NW k nfft e v m : c <> 0 ->
+  pmtm_regular dpss tw x NW k (match nfft with Some n => n | None => pmtm_default_nfft (length x) end) e v m ->
+  pmtm dpss fuel tw (vscale c x) NW k nfft e v m = option_map (pm_scale c) (pmtm dpss fuel tw x NW k nfft e v m).
+Proof. exact (pmtm_scale_thm dpss fuel tw c x NW k nfft e v m). Qed.
+
+Theorem mtm_class_scale {NWT : Type} (dpss : nat -> NWT -> option nat -> list (list F) * list F)
+  fuel tw isr c (x : list F) NW k nfft e v m sbf sc : c <> 0 ->
+  pmtm_regular dpss tw x NW k (match nfft with Some n => n | None => length x end) e v m ->
+  mt_call dpss fuel tw isr (vscale c x) NW k nfft e v m sbf sc
+  = option_map (vscale (nrm2 c)) (mt_call dpss fuel tw isr x NW k nfft e v m sbf sc).
+Proof. exact (mt_call_scale_thm dpss fuel tw isr c x NW k nfft e v m sbf sc). Qed.
+
+Theorem mtm_regular_natural tw tapers (ev x : list F) nfft :
+  (1 <= nfft)%nat -> (1 <= length ev)%nat -> pos (sig2 x) ->
+  (forall j, (j < length ev)%nat -> pos (nthF ev j) /\ le (nthF ev j) 1) ->
+  (forall k, (k < nfft)%nat -> nthF (ad_S0 (powspec (eigenspectra tw tapers x nfft)) (length ev) nfft) k <> 0) ->
+  adapt_regular tw tapers ev x nfft.
+Proof. exact (adapt_regular_natural_thm tw tapers ev x nfft). Qed.
+
+(* ---------------- MUSIC / EV over the SVD specification ---------------- *)
+Theorem fb_matrix_scale c (x : list F) P r k :
+  mat (fb_matrix (vscale c x) P) r k = fb_fac c x P r * mat (fb_matrix x P) r k /\ nrm2 (fb_fac c x P r) = nrm2 c.
+Proof. exact (Logic.conj (fb_matrix_scale_thm c x P r k) (fb_fac_nrm2 c x P r)). Qed.
+
+Theorem svd_spec_scale c m (x : list F) rows P S Vh : pos m -> m * m = nrm2 c ->
+  svd_spec (fb_matrix x P) rows P S Vh -> svd_spec (fb_matrix (vscale c x) P) rows P (vscale m S) Vh.
+Proof. exact (svd_spec_scale_thm c m x rows P S Vh). Qed.
+
+Theorem eigen_decisions_invariant m meth nsig thr crit amin N P NFFT (S : list F) : pos m ->
+  (forall I, conj (nthF S I) = nthF S I) -> thr_real thr ->
+  eigen_nsig meth nsig thr crit amin N P NFFT (vscale m S) = eigen_nsig meth nsig thr crit amin N P NFFT S.
+Proof. exact (eigen_nsig_scale_thm m meth nsig thr crit amin N P NFFT S). Qed.
+
+Theorem music_invariant eps nsig thr crit amin tw NFFT c m (x : list F) P S Vh : pos m ->
+  (forall I, conj (nthF S I) = nthF S I) -> thr_real thr ->
+  music eps nsig thr crit amin tw NFFT (vscale c x) P (vscale m S) Vh
+  = match music eps nsig thr crit amin tw NFFT x P S Vh with inl e => inl e | inr (psd, ev) => inr (psd, vscale m ev) end.
+Proof. exact (music_invariant_thm eps nsig thr crit amin tw NFFT c m x P S Vh). Qed.
+
+Theorem ev_den_scale m eps tw NFFT P (S : list F) Vh ns : pos m ->
+  (forall J, conj (nthF S J) = nthF S J) -> pos eps -> pos (nthF S 0) ->
+  pseudo_den MEv eps tw NFFT P (vscale m S) Vh ns = vscale (inv m) (pseudo_den MEv eps tw NFFT P S Vh ns).
+Proof. exact (ev_den_scale_thm m eps tw NFFT P S Vh ns). Qed.
+
+Theorem ev_scales eps nsig thr crit amin tw NFFT c m (x : list F) P S Vh : pos m ->
+  (forall I, conj (nthF S I) = nthF S I) -> thr_real thr ->
+  eig_regular MEv eps nsig thr crit amin tw NFFT (length x) P S Vh ->
+  ev eps nsig thr crit amin tw NFFT (vscale c x) P (vscale m S) Vh
+  = match ev eps nsig thr crit amin tw NFFT x P S Vh with inl e => inl e | inr (psd, sv) => inr (vscale m psd, vscale m sv) end.
+Proof. exact (ev_scales_thm eps nsig thr crit amin tw NFFT c m x P S Vh). Qed.
+
+Theorem ev_scales_bin m eps tw NFFT P (S : list F) Vh ns k : pos m ->
+  (forall J, conj (nthF S J) = nthF S J) -> pos eps -> pos (nthF S 0) -> (k < NFFT)%nat ->
+  nthF (pseudo_den MEv eps tw NFFT P S Vh ns) k <> 0 ->
+  nthF (pseudo MEv eps tw NFFT P (vscale m S) Vh ns) k = m * nthF (pseudo MEv eps tw NFFT P S Vh ns) k.
+Proof. exact (ev_pseudo_scale_bin_thm m eps tw NFFT P S Vh ns k). Qed.
+
+Theorem pclass_scale meth eps isr scale nsig thr crit amin tw NFFT c m (x : list F) P S Vh : pos m ->
+  (forall I, conj (nthF S I) = nthF S I) -> thr_real thr ->
+  eig_regular meth eps nsig thr crit amin tw NFFT (length x) P S Vh ->
+  pclass meth eps isr scale nsig thr crit amin tw NFFT (vscale c x) P (vscale m S) Vh
+  = eig_scale meth m (pclass meth eps isr scale nsig thr crit amin tw NFFT x P S Vh).
+Proof. exact (pclass_scale_thm meth eps isr scale nsig thr crit amin tw NFFT c m x P S Vh). Qed.
+
+(* ---------------- class level ---------------- *)
+Theorem class_scale_every_table (twopi : F) md p real sbf (st : sstate) (k : F) (Sp : list F) :
+  stored twopi md p real sbf st (vscale k Sp) = vscale k (stored twopi md p real sbf st Sp).
+Proof. exact (stored_homogeneous_thm twopi md p real sbf st k Sp). Qed.
+
+Theorem class_arma_scale (twopi : F) (tw : Z -> F) md (p : pipeline) real sbf (st : sstate) A B rho s S1 :
+  p_fsamp p = UseDiv -> p_samp p = SampSelf -> p_fscale p = FsNone ->
+  isreal (st_sampling st) -> st_sampling st <> 0 -> isreal s ->
+  arma2psd tw A B rho 1 (st_NFFT st) SidesDefault false = Some S1 ->
+  arma2psd tw A B (s * rho) (st_sampling st) (st_NFFT st) SidesDefault false
+    = Some (fresult twopi p sbf (st_sampling st) (st_NFFT st) (vscale s S1))
+  /\ stored twopi md p real sbf st (vscale s S1) = vscale s (stored twopi md p real sbf st S1).
+Proof. exact (class_arma_scale_thm twopi tw md p real sbf st A B rho s S1). Qed.
 End C03.
 
 Theorem log_criteria_homogeneous (N s r1 r2 k1 k2 : R) : (0 < s -> 0 < r1 -> 0 < r2 ->
@@ -56,6 +286,19 @@ Theorem log_criteria_homogeneous (N s r1 r2 k1 k2 : R) : (0 < s -> 0 < r1 -> 0 <
   (AKICc N (s * r2) k2 > AKICc N (s * r1) k1 <-> AKICc N r2 k2 > AKICc N r1 k1) /\
   (MDL N (s * r2) k2 > MDL N (s * r1) k1 <-> MDL N r2 k2 > MDL N r1 k1))%R.
 Proof. exact (log_criteria_scale_invariant N s r1 r2 k1 k2). Qed.
+
+(* criteria.py aic_eigen / mdl_eigen as coded (ak over n-k-1 terms divided by n-k, gk = prod(s[k+1:]**(1/(n-k)))): multiplying the
+   singular values by m > 0 adds the SAME constant to every entry, so every comparison made by numpy.argmin is unchanged *)
+Theorem eigen_criteria_shift (m : R) (s : list R) (N : R) : (0 < m)%R -> allpos s ->
+  aic_eigen (map (Rmult m) s) N = map (fun v => (v + 2 * N * ln m)%R) (aic_eigen s N)
+  /\ mdl_eigen (map (Rmult m) s) N = map (fun v => (v + N * ln m)%R) (mdl_eigen s N).
+Proof. exact (eigen_criteria_shift_thm m s N). Qed.
+
+Theorem eigen_criteria_order (m : R) (s : list R) (N : R) (k j : nat) : (0 < m)%R -> allpos s ->
+  (k < length s - 1)%nat -> (j < length s - 1)%nat ->
+  ((aic_eigen_at (map (Rmult m) s) N k < aic_eigen_at (map (Rmult m) s) N j)%R <-> (aic_eigen_at s N k < aic_eigen_at s N j)%R)
+  /\ ((mdl_eigen_at (map (Rmult m) s) N k < mdl_eigen_at (map (Rmult m) s) N j)%R <-> (mdl_eigen_at s N k < mdl_eigen_at s N j)%R).
+Proof. exact (eigen_criteria_order_thm m s N k j). Qed.
 
 (* non-vacuity: the hypotheses are met by a concrete complex sequence and scalar; and the pre-repair
    order-0 reference (the raw power instead of the criterion value) is NOT homogeneous *)
@@ -76,8 +319,131 @@ Proof.
   assert (X : (1 * 0 + 2 * (1 + 1) > 3)%R) by lra. apply B in X. lra.
 Qed.
 
+
+(* ---- the new theorems on concrete exact inputs (4-point grid, twiddle tw4) ---- *)
+Local Open Scope Z_scope.
+Definition c03_x4 : list QcC := [cz (1,0) (2,0); cz (-3,0) (1,-1); cz (0,0) (-1,0); cz (5,-2) (1,0)].
+Definition c03_w4 : list QcC := [cz (1,-1) (0,0); cz (1,0) (0,0); cz (3,-2) (0,0); cz (1,-2) (0,0)].
+Definition c03_q1 : QcC := cz (1,0) (0,0).
+Definition c03_tol : QcC := (Q2Qc (1 # 10000), Q2Qc 0).
+Definition nonzero_list (l : list QcC) : bool := existsb (fun z => negb (Qc_eq_bool (fst z) 0 && Qc_eq_bool (snd z) 0)) l.
+Example periodogram_scale_example :
+  @speriodogram _ qcc_ops tw4 (cz (25,-2) (0,0)) (@vscale _ qcc_ops c03_c c03_x4) c03_w4 (Some 4%nat) false PyTrue PyTrue (cz (3,0) (0,0))
+  = @vscale _ qcc_ops (@nrm2 _ qcc_ops c03_c) (@speriodogram _ qcc_ops tw4 (cz (25,-2) (0,0)) c03_x4 c03_w4 (Some 4%nat) false PyTrue PyTrue (cz (3,0) (0,0)))
+  /\ nonzero_list (@speriodogram _ qcc_ops tw4 (cz (25,-2) (0,0)) c03_x4 c03_w4 (Some 4%nat) false PyTrue PyTrue (cz (3,0) (0,0))) = true.
+Proof. split; vm_compute; reflexivity. Qed.
+Example correlogram_scale_example (be : backend) :
+  @correlogram _ qcc_ops tw4 c03_q1 (@vscale _ qcc_ops c03_c c03_x4) None 1 [c03_q1; c03_q1; cz (1,-1) (0,0)] (Some 4%nat) Unbiased be
+  = option_map (@vscale _ qcc_ops (@nrm2 _ qcc_ops c03_c)) (@correlogram _ qcc_ops tw4 c03_q1 c03_x4 None 1 [c03_q1; c03_q1; cz (1,-1) (0,0)] (Some 4%nat) Unbiased be)
+  /\ @correlogram _ qcc_ops tw4 c03_q1 c03_x4 None 1 [c03_q1; c03_q1; cz (1,-1) (0,0)] (Some 4%nat) Unbiased be <> None.
+Proof. destruct be; (split; [vm_compute; reflexivity|vm_compute; discriminate]). Qed.
+Example aryule_scale_example :
+  @aryule _ qcc_ops (@vscale _ qcc_ops c03_c c03_x) 2 Biased false = @yw_scale _ qcc_ops (@nrm2 _ qcc_ops c03_c) (@aryule _ qcc_ops c03_x 2 Biased false)
+  /\ exists st, @aryule _ qcc_ops c03_x 2 Biased false = inr st.
+Proof. split; [vm_compute; reflexivity|eexists; vm_compute; reflexivity]. Qed.
+Example covar_scale_example :
+  @arcovar _ qcc_ops c03_tol (@vscale _ qcc_ops c03_c c03_x) 2 = @ae_scale _ qcc_ops (@nrm2 _ qcc_ops c03_c) (@arcovar _ qcc_ops c03_tol c03_x 2)
+  /\ @modcovar _ qcc_ops c03_tol (@vscale _ qcc_ops c03_c c03_x) 2 = @ae_scale _ qcc_ops (@nrm2 _ qcc_ops c03_c) (@modcovar _ qcc_ops c03_tol c03_x 2)
+  /\ @arcovar _ qcc_ops c03_tol c03_x 2 <> None /\ @modcovar _ qcc_ops c03_tol c03_x 2 <> None.
+Proof. repeat split; try (vm_compute; reflexivity); vm_compute; discriminate. Qed.
+Example minvar_scale_example :
+  @minvar _ qcc_ops tw4 (@vscale _ qcc_ops c03_c c03_x) 2 (cz (3,-1) (0,0)) 4
+  = @mv_scale _ qcc_ops (@nrm2 _ qcc_ops c03_c) (@minvar _ qcc_ops tw4 c03_x 2 (cz (3,-1) (0,0)) 4)
+  /\ @minvar _ qcc_ops tw4 c03_x 2 (cz (3,-1) (0,0)) 4 <> None.
+Proof. split; [vm_compute; reflexivity|vm_compute; discriminate]. Qed.
+(* adaptive multitaper on the exact run of Proofs/MtmExample.v: identical weights, same pass count; the natural hypotheses hold there *)
+Definition c03_eqb (a b : QcC) : bool := Qc_eq_bool (fst a) (fst b) && Qc_eq_bool (snd a) (snd b).
+Fixpoint c03_leqb (l1 l2 : list QcC) : bool :=
+  match l1, l2 with [], [] => true | a :: t, b :: u => c03_eqb a b && c03_leqb t u | _, _ => false end.
+Fixpoint c03_meqb (m1 m2 : list (list QcC)) : bool :=
+  match m1, m2 with [], [] => true | a :: t, b :: u => c03_leqb a b && c03_meqb t u | _, _ => false end.
+Example mtm_weights_example :
+  (let '(Skc', w', ev') := @pmtm_core _ qcc_ops 2 tw4 ex_tapers ex_ev (@vscale _ qcc_ops c03_c ex_x) 4 Adapt in
+   let '(Skc, w, ev) := ex_run in
+   c03_meqb Skc' (map (@vscale _ qcc_ops c03_c) Skc) && c03_meqb w' w && c03_leqb ev' ev && nonzero_list (concat w)) = true
+  /\ @ad_i _ (@adapt_run _ qcc_ops 2 (@eigenspectra _ qcc_ops tw4 ex_tapers (@vscale _ qcc_ops c03_c ex_x) 4) ex_ev (@vscale _ qcc_ops c03_c ex_x) 4) = 2%nat.
+Proof. split; vm_compute; reflexivity. Qed.
+Example mtm_regular_example : @adapt_regular _ qcc_ops tw4 ex_tapers ex_ev ex_x 4.
+Proof.
+  destruct adapt_example_hypotheses_thm as (H1 & H2 & H3).
+  apply (@mtm_regular_natural _ qcc_ops qcc_laws qcc_ord tw4 ex_tapers ex_ev ex_x 4); [lia|cbn; lia|exact H1|exact H2|exact H3].
+Qed.
+(* MUSIC / EV: x_n = 1+i (Properties/C17.v's exact SVD: S = (4, 0)); c = 3+4i, m = |c| = 5 *)
+Definition c03_ex : list QcC := [cz (1,0) (1,0); cz (1,0) (1,0); cz (1,0) (1,0); cz (1,0) (1,0)].
+Definition c03_eS : list QcC := [cz (4,0) (0,0); cz (0,0) (0,0)].
+Definition c03_eps : QcC := cz (1,-52) (0,0).
+Definition c03_eVh : list (list QcC) := [[cz (1,-1) (-1,-1); cz (1,-1) (-1,-1)]; [cz (1,-1) (-1,-1); cz (-1,-1) (1,-1)]].
+Definition c03_ec : QcC := cz (3,0) (4,0).
+Definition c03_em : QcC := cz (5,0) (0,0).
+Ltac c03_eq := apply qcc_eq_canon; vm_compute; reflexivity.
+Ltac c03_nn r := apply (@nonneg_eq _ qcc_ops qcc_ord (@nrm2 _ qcc_ops r)); [c03_eq|apply (@nn_nrm2 _ qcc_ops qcc_ord)].
+Example svd_spec_c03 : @svd_spec _ qcc_ops qcc_ord (@fb_matrix _ qcc_ops c03_ex 2) 4 2 c03_eS c03_eVh.
+Proof.
+  constructor.
+  - reflexivity.
+  - intros I HI. destruct I as [|[|I]]; [reflexivity|reflexivity|lia].
+  - intros I HI. destruct I as [|[|I]]; [c03_nn (cz (2,0) (0,0))|c03_nn (cz (0,0) (0,0))|lia].
+  - intros I J HIJ HJ. assert (HI : ((I = 0 /\ J = 0) \/ (I = 0 /\ J = 1) \/ (I = 1 /\ J = 1))%nat) by lia.
+    unfold le. destruct HI as [[-> ->]|[[-> ->]|[-> ->]]]; [c03_nn (cz (0,0) (0,0))|c03_nn (cz (2,0) (0,0))|c03_nn (cz (0,0) (0,0))].
+  - intros I J HI HJ. destruct I as [|[|I]]; [| |lia]; (destruct J as [|[|J]]; [| |lia]); c03_eq.
+  - intros m m' Hm Hm'. destruct m as [|[|m]]; [| |lia]; (destruct m' as [|[|m']]; [| |lia]); c03_eq.
+  - intros I HI k Hk. destruct I as [|[|I]]; [| |lia]; (destruct k as [|[|k]]; [| |lia]); c03_eq.
+Qed.
+Lemma c03_em_pos : @pos _ qcc_ops qcc_ord c03_em.
+Proof. apply (qcc_pos_frac _ 5 1); [lia|lia|c03_eq]. Qed.
+(* the theorem applies: (5*S, Vh) meets the specification for FB(c*x) *)
+Example svd_spec_scale_example :
+  @svd_spec _ qcc_ops qcc_ord (@fb_matrix _ qcc_ops (@vscale _ qcc_ops c03_ec c03_ex) 2) 4 2 (@vscale _ qcc_ops c03_em c03_eS) c03_eVh.
+Proof. apply (@svd_spec_scale _ qcc_ops qcc_laws qcc_ord c03_ec c03_em c03_ex 4 2 c03_eS c03_eVh c03_em_pos); [c03_eq|exact svd_spec_c03]. Qed.
+Example eigen_scale_example :
+  @music _ qcc_ops c03_eps (Some (NInt 1)) None CAic 0 tw4 4 (@vscale _ qcc_ops c03_ec c03_ex) 2 (@vscale _ qcc_ops c03_em c03_eS) c03_eVh
+  = match @music _ qcc_ops c03_eps (Some (NInt 1)) None CAic 0 tw4 4 c03_ex 2 c03_eS c03_eVh with inl e => inl e | inr (psd, sv) => inr (psd, @vscale _ qcc_ops c03_em sv) end
+  /\ @ev _ qcc_ops c03_eps (Some (NInt 0)) None CAic 0 tw4 4 (@vscale _ qcc_ops c03_ec c03_ex) 2 (@vscale _ qcc_ops c03_em c03_eS) c03_eVh
+  = match @ev _ qcc_ops c03_eps (Some (NInt 0)) None CAic 0 tw4 4 c03_ex 2 c03_eS c03_eVh with inl e => inl e | inr (psd, sv) => inr (@vscale _ qcc_ops c03_em psd, @vscale _ qcc_ops c03_em sv) end
+  /\ (exists r, @ev _ qcc_ops c03_eps (Some (NInt 0)) None CAic 0 tw4 4 c03_ex 2 c03_eS c03_eVh = inr r)
+  /\ forallb (fun d => negb (Qc_eq_bool (fst d) 0 && Qc_eq_bool (snd d) 0)) (@pseudo_den _ qcc_ops MEv c03_eps tw4 4 2 c03_eS c03_eVh 0) = true.
+Proof. split; [vm_compute; reflexivity|]. split; [vm_compute; reflexivity|]. split; [eexists; vm_compute; reflexivity|vm_compute; reflexivity]. Qed.
+Local Close Scope Z_scope.
+
 Print Assumptions acorr_scale.
 Print Assumptions levinson_scale.
 Print Assumptions arburg_scale.
 Print Assumptions fpe_homogeneous.
+Print Assumptions periodogram_scale.
+Print Assumptions periodogram2d_scale.
+Print Assumptions periodogram_class_scale.
+Print Assumptions correlogram_scale.
+Print Assumptions aryule_scale.
+Print Assumptions pyule_ar_scale.
+Print Assumptions lpc_scale.
+Print Assumptions corrmtx_rowscaled.
+Print Assumptions ls_normal_eqs_scale.
+Print Assumptions ls_solve_scale.
+Print Assumptions ls_scale.
+Print Assumptions arcovar_scale.
+Print Assumptions modcovar_scale.
+Print Assumptions pcovar_rho_scale.
+Print Assumptions pmodcovar_rho_scale.
+Print Assumptions minvar_den_scale.
+Print Assumptions minvar_scale.
+Print Assumptions minvar_scale_grid.
+Print Assumptions mtm_step_invariant.
+Print Assumptions mtm_stop_homogeneous.
+Print Assumptions mtm_weights_invariant.
+Print Assumptions mtm_passes_invariant.
+Print Assumptions mtm_pmtm_scale.
+Print Assumptions mtm_class_scale.
+Print Assumptions mtm_regular_natural.
+Print Assumptions fb_matrix_scale.
+Print Assumptions svd_spec_scale.
+Print Assumptions eigen_decisions_invariant.
+Print Assumptions music_invariant.
+Print Assumptions ev_den_scale.
+Print Assumptions ev_scales.
+Print Assumptions ev_scales_bin.
+Print Assumptions pclass_scale.
+Print Assumptions class_scale_every_table.
+Print Assumptions class_arma_scale.
 Print Assumptions log_criteria_homogeneous.
+Print Assumptions eigen_criteria_shift.
+Print Assumptions eigen_criteria_order.
